@@ -1898,7 +1898,8 @@ class _AnsiSettingPoint:
     def _scrub_ansi_settings(
         settings:Union[AnsiFormat, AnsiSetting, str, int, list, tuple],
         make_unique=False,
-        parsed_ids:List[int]=[]
+        parsed_ids:List[int]=[],
+        group_ints=True
     ) -> List[AnsiSetting]:
         if not isinstance(settings, list) and not isinstance(settings, tuple):
             settings = [settings]
@@ -1930,7 +1931,11 @@ class _AnsiSettingPoint:
                     raise ValueError("Settings list contains itself - cannot unpack")
 
                 # At this point, setting will be valid list or tuple - recursive call to unpack
-                settings_out += __class__._scrub_ansi_settings(setting, make_unique, parsed_ids)
+                # (integers are grouped once, after everything is flattened: [38, 2, (255, 0, 0)] is one color)
+                settings_out += __class__._scrub_ansi_settings(setting, make_unique, parsed_ids, False)
+
+        if not group_ints:
+            return settings_out
 
         # settings_out is now a list of AnsiSettings and integers - parse for integers and combine int AnsiSetting
         current_ints = []
